@@ -12,4 +12,46 @@ ENTRIES = {
           "The quaternion form of the chain (toMat of the link quaternions = the matrix products) is proved in Lemmas/ as it lands.",
  },
 }
+ENTRIES.update({
+ "C01": {
+  "text": "Generic ([G], any number type, hence of the IEEE reading itself) Lean proofs that the run-time forward-kinematics cross-check is "
+          "on every path: every element of inverse_intern / inverse / inverse_5dof / inverse_continuing_5dof satisfies compare_poses "
+          "(resp. the xyz check) against the requested pose, unreachable poses give [], wrapper stacks return exactly the core's answers "
+          "for the local pose (Props/C01). inverse_continuing is proved in the partial form stated in DESIGN §7 (solutions taken from a "
+          "0.125 um-shifted pose when the unshifted solve is empty are checked against the shifted pose). Every run compares the model's "
+          "Float reading with all four entry points and the two private solvers (hook) and evaluates on the implementation's answers: "
+          "finite, independent chain-FK within 1 um / 1 urad (position+axis for 5-DOF), range [-pi,pi], empty for non-finite poses, no panic.",
+  "note": "Trusted: Lean kernel + 3 standard axioms; model tied by the differential run (15k lines quick, all four entry points, bare and "
+          "wrapped); rounding inside compare_poses itself; `forward` used by the check is the code's own closed form, shown equal to the "
+          "link chain in C03. inverseContinuing_sound is partial (named so in Props/C01.lean).",
+ },
+ "C06": {
+  "text": "[G] proofs: joint 6 of every answer of inverse_5dof is exactly the caller's value (also through tool/base/frame/shape stacks), the "
+          "tool point passes the run-time xyz check, a robot declared 5-DOF dispatches inverse -> inverse_5dof(pose, 0) and "
+          "inverse_continuing -> inverse_continuing_5dof; J6 of inverse_continuing_5dof is normalize_near(prev6, prev6) (partial: the "
+          "arithmetic fact normalize_near(x,x)=x is in Props/C04). Runs compare all entry points for dof 5 and 6, bare and behind axial "
+          "stacks, and check on implementation output: J6 bit-equal to the request, tool point <= 1 um, tool axis <= 1 urad, originating "
+          "J1..J5 present when non-singular, 5-DOF robots non-empty on reachable poses.",
+  "note": "Tool-axis accuracy and presence of the originating joints are decided by predicates on sampled implementation output only (no "
+          "theorem yet). Trusted base as for C01.",
+ },
+ "C07": {
+  "text": "[R] proofs (Props/C07): inside_bounds <=> some 2pi-representative within tol of the centre; the unwrap loop computes the least "
+          "to+2pi*n >= from; compliant <=> every joint on the arc from 'from' in the positive direction to 'to' (OnArc), boundaries included; "
+          "invariance under whole turns of the angle and of both limits; spans >= 2pi accept everything; centres accepted; [G] from == to is "
+          "unconstrained. Runs compare the model EXACTLY (only correctly rounded IEEE operations are involved) on an exhaustive degree "
+          "lattice through all three constructors and on random reals, and check the arc oracle on the implementation's verdicts.",
+  "note": "Trusted: Lean kernel + 3 standard axioms; model tied by exact differential comparison (1e6 per-joint verdicts quick). Over the "
+          "reals infinity does not exist, so the from==to clause is a [G] theorem with the hypothesis that 1/0 is infinite (true of f64).",
+ },
+ "C08": {
+  "text": "[G] proofs (Props/C08): every answer of each of the four entry points (both dof values) is compliant; plain inverse / inverse_5dof "
+          "with limits equal the filter of the same call without limits; inverse_continuing_5dof likewise for sorting weight BY_PREV; every "
+          "wrapper (tool, base, frame, parallelogram, shape) reports its core's limits; stacks without parallelogram return only compliant "
+          "vectors. Runs execute every query with and without limits (cmp2) and check compliance and that no compliant solution of the "
+          "unconstrained run is lost (modulo 2pi), through stacks to depth 3 incl. parallelogram (compliance of the inner vector).",
+  "note": "The 6-DOF inverse_continuing superset clause is decided by the sampled predicate C08.superset (the early exit of the shift loop "
+          "differs between the two runs only after a non-compliant singular candidate); no theorem yet. Trusted base as for C01.",
+ },
+})
 NOT_APPLICABLE = {}
